@@ -49,7 +49,8 @@ def generate(ctx):
                "storage": rng.choice(STORAGES), "shape": list(rng.choice([(), (2,), (2, 3)])),
                "pushes": rng.choice([0, 1, 2, 5, 11, 23]), "ptr_extra": rng.randint(0, 9), "steps": steps,
                # element type of the stored observations (integer observations beyond 2**24 do not survive a detour through float32)
-               "store_dtype": rng.choice([None, None, None, "int64", "bool", "float64", "int32"])}
+               "store_dtype": rng.choice([None, None, None, "int64", "bool", "float64", "int32"]),
+               "align_neg": rng.choice([None, None, None, 1, 2, 5])}
     for _ in range(2500 if thorough else 160):
         shape = rng.choice([(2,), (3, 2), (2, 3, 2)])
         ops = []
@@ -150,6 +151,10 @@ def _run_temporal(ctx, desc):
         push()
     if not rt.ignored and desc["ptr_extra"]:
         rt.incr(desc["ptr_extra"])
+    if not rt.ignored and desc.get("align_neg"):
+        # documented index semantics: a negative index counts from the end (the pointer then holds a negative value)
+        rt.align(-min(desc["align_neg"], rt.recordsz))
+        ctx.count("resizes_after_align_to_a_negative_index")
     for si, st in enumerate(desc["steps"]):
         rdesc = {**desc, "steps": desc["steps"][: si + 1]}
         old_n = rt.recordsz
